@@ -51,6 +51,8 @@ func BuildImageFromLayers(ctx context.Context, baseImage v1.Image, layers []v1.L
 	if err := oic.MergeInto(ic); err != nil {
 		return nil, err
 	}
+	// MergeInto does not carry the VCS URL over; without it the source and revision annotations are never set.
+	ic.VCSUrl = oic.VCSUrl
 
 	comment := "This is an apko single-layer image"
 	if len(layers) > 1 {
